@@ -197,7 +197,7 @@ def run(c) -> CaseResult:
 
 CHECK = Check(
     id="C10",
-    parts=[Part("lr", run, strategy=cases, budget={"quick": 2500, "thorough": 60000})],
+    parts=[Part("lr", run, strategy=cases, budget={"quick": 6000, "thorough": 400000})],
     rule=("Hypothesis: 1-6 parameters (1-3 dims from {1,2,3,16,17,256,4096} or any 1..4096, <= 2^20 elements, torch.empty storage), "
           "tag in the four types, depth None or 1..1024, lr log-uniform in [1e-8,1e2] as float / float32 / float64 0-dim tensor, "
           "presented as list, generator or explicit groups with/without own lr; scaled_parameters with the three lr-scale functions and "
